@@ -138,4 +138,28 @@ Section Dispatch.
 
   Definition binop_guard (same_impl r_priority : bool) (l r : side O) : bool :=
     negb (raise_then_other_ok r_priority l r) && negb (same_impl_reflected_ok same_impl r_priority l r).
+
+  (* ---------------------------------------------------------------- augmented assignment *)
+  (* _visit_binop_internal(is_inplace=True): the in-place dunder first; when that attempt shows
+     any error, the ordinary binary operator *)
+  Definition pa_aug (i l r : side O) : verdict O :=
+    if side_errors i then pa_binop l r else side_result i.
+
+  (* CPython: the in-place slot when there is one and it does not return NotImplemented, else x op y *)
+  Definition py_aug (same_impl r_priority : bool) (i l r : side O) : pyres :=
+    try_side i (py_binop same_impl r_priority l r).
+
+  (* clause inplace_raises_binop_ok: the in-place method raises TypeError itself although the
+     binary operator would not end in TypeError *)
+  Definition inplace_raises_binop_ok (i l r : side O) : bool :=
+    s_exists i && is_raisetype (s_out i) && negb (fails l && fails r).
+
+  Definition aug_guard (same_impl r_priority : bool) (i l r : side O) : bool :=
+    binop_guard same_impl r_priority l r && negb (inplace_raises_binop_ok i l r).
+
+  (* ---------------------------------------------------------------- comparison chains *)
+  (* a op1 b op2 c: visit_Compare judges every link; CPython performs the second link only when
+     the first is true, so "performing the operations" means each link on its own *)
+  Definition pa_chain (link1_diag link2_diag : bool) : bool := link1_diag || link2_diag.
+  Definition py_chain_raises (link1_raises link2_raises : bool) : bool := link1_raises || link2_raises.
 End Dispatch.
